@@ -1012,6 +1012,17 @@ func callBuiltin(caller *frame, callpos token.Pos, fn *ssa.Builtin, args []value
 			return arg0
 		}
 		// append([]T, ...[]T) []T
+		{
+			dst := args[0].([]value)
+			k := len(args[1].([]value))
+			if spare := cap(dst) - len(dst); spare > 0 && k > 0 {
+				// appending in place writes the cells behind len: subject to the global write barrier
+				full := dst[:cap(dst)]
+				for j := len(dst); j < len(dst)+k && j < len(full); j++ {
+					noteWrite(&full[j])
+				}
+			}
+		}
 		return append(args[0].([]value), args[1].([]value)...)
 
 	case "copy": // copy([]T, []T) int or copy([]byte, string) int
